@@ -73,6 +73,10 @@ def instances(tier, seed):
                 # (hash-dependent) order, so "first accepting alternative" is not defined there
                 out.append(("core", dict(params=ps, ret=None, maxrank=mr, switch=0, tc="typeguard")))
                 out.append(("core", dict(params=ps[:-1], ret=after, maxrank=mr, switch=1, tc="typeguard")))
+    # a trailing defaulted parameter that the caller leaves unsupplied
+    for ps, r in ((["a b", "c a"], None), (["a", "b", "a b"], None), (["a b", "b"], "a"), (["*v a", "a"], None)):
+        for tc in ("typeguard", "beartype"):
+            out.append(("core", dict(params=ps, ret=r, maxrank=mr, switch=0, tc=tc, with_default=True)))
     # misuse -> AnnotationError
     for ps, r in ([["a+1"], None], [["a"], "b+1"], [["?a"], None], [["#a", "a+1"], None], [["a"], "?a"]):
         for tc in ("typeguard", "beartype"):
@@ -168,6 +172,16 @@ def all_names(descs):
     return X.names_of(lists)
 
 
+_DEFAULTS = {}
+
+
+def default_array(ARR):
+    if ARR not in _DEFAULTS:
+        from env.fakes import FakeArr
+        _DEFAULTS[ARR] = FakeArr((3,), "float32") if ARR is FakeArr else base.np_array((3,))
+    return _DEFAULTS[ARR]
+
+
 def build_fn(inst, V):
     from typing import Union
     import jaxtyping as jt
@@ -180,6 +194,12 @@ def build_fn(inst, V):
             # check PEP 604 `X | Y` objects at all, so those are not used here)
             anns.append(Union[tuple(jt.Float[V.ARR, a] for a in p)])
     ps = [p if isinstance(p, str) else None for p in inst["params"]]
+    if inst.get("with_default"):
+        # extra last parameter `zz`-annotated with a well-typed default that is never passed
+        ps = ps + ["zz"]
+        anns = anns + [None]
+        return fnlib.build(ps, inst["ret"], V.ARR, inst["tc"], "function", None, anns=anns,
+                           defaults={len(ps) - 1: default_array(V.ARR)})
     return fnlib.build(ps, inst["ret"], V.ARR, inst["tc"], "function", None, anns=anns)
 
 
@@ -201,13 +221,13 @@ def scenario(inst, V):
     values = [V.arr(s) for s in shapes]
     fnlib.HOLD["ret"] = V.arr(rshape) if rshape is not None else None
     fnlib.HOLD["body_exc"] = None
-    ck = (repr(params), ret, V.ARR, inst["tc"])
+    ck = (repr(params), ret, V.ARR, inst["tc"], bool(inst.get("with_default")))
     if ck not in _union_cache:
         _union_cache[ck] = build_fn(inst, V)
     fn, pn = _union_cache[ck]
     jt.config.update("jaxtyping_remove_typechecker_stack", bool(inst["switch"]))
     try:
-        kind, res = fnlib.call(fn, pn, values, "pos")
+        kind, res = fnlib.call(fn, pn[:len(values)], values, "pos")
     finally:
         jt.config.update("jaxtyping_remove_typechecker_stack", False)
     if inst.get("misuse"):
